@@ -342,3 +342,110 @@ def zoo_file(entry):
     mine = card.split("\n") if card else [fl.get("mode", "mode n")]
     own = [i for i, l in enumerate(lines) if l in mine]
     return f"zoo:{family}:{variant}", text, own
+
+
+# --------------------------------------------------------------------------- reference defects in every order
+def _ref_base():
+    cells = [
+        {"num": 1, "mat": 1, "surfs": [-1], "comps": [], "mods": ["imp"], "fault": None, "extra": ""},
+        {"num": 2, "mat": 2, "surfs": [1, -2], "comps": [], "mods": ["imp"], "fault": None, "extra": ""},
+        {"num": 3, "mat": 0, "surfs": [2], "comps": [1], "mods": ["imp"], "fault": None, "extra": ""},
+    ]
+    surfaces = [
+        {"num": 1, "tr": None, "per": None, "type": "so", "consts": [1], "fault": None},
+        {"num": 2, "tr": 1, "per": None, "type": "so", "consts": [2], "fault": None},
+        {"num": 3, "tr": None, "per": 4, "type": "px", "consts": [0], "fault": None},
+        {"num": 4, "tr": None, "per": 3, "type": "px", "consts": [5], "fault": None},
+    ]
+    data = {
+        "mode": {"t": "mode", "fault": None},
+        "m1": {"t": "material", "num": 1, "fault": None},
+        "mt1": {"t": "thermal", "num": 1, "fault": None},
+        "m2": {"t": "material", "num": 2, "fault": None},
+        "mt2": {"t": "thermal", "num": 2, "fault": None},
+        "mt7": {"t": "thermal", "num": 7, "fault": None},
+        "tr1": {"t": "transform", "num": 1, "fault": None},
+    }
+    return cells, surfaces, data
+
+
+def ref_order_descs(thorough=False):
+    """reference defects in every ORDER: for each reference kind of the model (cell->surface, cell->material,
+    cell->complement, surface->transform, surface->periodic, MT->material) a dangling reference, with the cards of the
+    block in every permutation (MT before / after / between its material and the others, the dangling card at every
+    position), plus duplicated MT inputs.  -> list of (kind, description)"""
+    import copy
+    import itertools
+
+    out = []
+
+    def desc(cells, surfaces, data):
+        return {"cells": copy.deepcopy(cells), "surfaces": copy.deepcopy(surfaces), "data": copy.deepcopy(data), "reader": [], "tail_reader": None, "files": {}}
+
+    cells, surfaces, data = _ref_base()
+    # data block: every order of M / MT inputs, with the second MT sound (mt2) or dangling (mt7), the transform first or last
+    for dangling in ("mt2", "mt7"):
+        for perm in itertools.permutations(["m1", "mt1", "m2", dangling]):
+            for tr_first in ((False, True) if thorough or dangling == "mt7" else (False,)):
+                order = (["tr1"] if tr_first else []) + list(perm) + ([] if tr_first else ["tr1"])
+                out.append((f"ref-order:mt-material:{dangling}", desc(cells, surfaces, [data["mode"]] + [data[k] for k in order])))
+    # a duplicated MT at every position of three orders
+    for perm in (["mt1", "m1", "mt7", "m2"], ["m1", "mt1", "m2", "mt7"], ["mt7", "mt1", "m2", "m1"]):
+        for pos in range(len(perm) + 1):
+            order = list(perm)
+            order.insert(pos, "mt1")
+            out.append(("ref-order:mt-material:duplicate-mt", desc(cells, surfaces, [data["mode"]] + [data[k] for k in order] + [data["tr1"]])))
+    # a missing material / transform with the rest in every order
+    for missing in ("m2", "tr1"):
+        rest = [k for k in ("m1", "mt1", "m2", "mt2", "tr1") if k != missing]
+        for perm in list(itertools.permutations(rest))[:: (1 if thorough else 3)]:
+            out.append((f"ref-order:missing-{missing}", desc(cells, surfaces, [data["mode"]] + [data[k] for k in perm])))
+    full = [data[k] for k in ("mode", "m1", "mt1", "m2", "mt2", "tr1")]
+    # cell block: every order; nothing / a surface / a material / a complement dangling in each cell
+    for perm in itertools.permutations(range(3)):
+        for who in range(3):
+            for what in ("none", "surface", "material", "complement"):
+                if what == "none" and who > 0:
+                    continue
+                cs = copy.deepcopy([cells[i] for i in perm])
+                tgt = [c for c in cs if c["num"] == who + 1][0]
+                if what == "surface":
+                    tgt["surfs"][0] = 987
+                elif what == "material":
+                    tgt["mat"] = 987
+                elif what == "complement":
+                    tgt["comps"] = [986]
+                out.append((f"ref-order:cell-{what}", desc(cs, surfaces, full)))
+    # surface block: every order; the transform / the periodic partner dangling
+    for perm in itertools.permutations(range(4)):
+        for what in ("none", "transform", "periodic", "periodic-deleted"):
+            ss = copy.deepcopy([surfaces[i] for i in perm])
+            if what == "transform":
+                [s for s in ss if s["num"] == 2][0]["tr"] = 987
+            elif what == "periodic":
+                [s for s in ss if s["num"] == 3][0]["per"] = 986
+            elif what == "periodic-deleted":
+                ss = [s for s in ss if s["num"] != 4]
+            if what != "none" or perm[0] == 0 or thorough:
+                out.append((f"ref-order:surface-{what}", desc(cells, ss, full)))
+    return out
+
+
+def ref_order_texts():
+    """the reference kinds the model does not carry (cell -> universe through FILL, FILL -> transform), as texts, in
+    every order of the cell block: (kind, text)"""
+    import itertools
+
+    out = []
+    base_cells = {
+        "u": "1 0 -1 imp:n=1 u=5",
+        "f": "2 0 -2 imp:n=1 fill={fill}",
+        "o": "3 0 2 imp:n=0",
+    }
+    for fill, kind in (("5", "none"), ("9", "cell-fill-universe"), ("5 (1)", "none"), ("5 (7)", "fill-transform")):
+        for perm in itertools.permutations("ufo"):
+            cells = [base_cells[k].format(fill=fill) for k in perm]
+            for tr_pos in (0, 1):
+                data = ["mode n", "tr1 0 0 1"] if tr_pos == 0 else ["tr1 0 0 1", "mode n"]
+                out.append(("ref-order:" + kind, "\n".join([f"reference order {kind}"] + cells + ["", "1 so 1", "2 so 5", ""] + data + [""]) + "\n"))
+    return out
